@@ -759,8 +759,33 @@ def run(ctx):
 
     KEYS = {"self.keys()", "self", "self._rels", "self._rels.keys()"}
     VALUES = {"self.values()", "self._rels.values()"}
+    import copy as _copy13
+
+    from sa.inline import expand as _expand13, resolve_callee as _rc13
+
+    xmlp0 = xmlp
+    xmlp = _copy13.copy(xmlp)
+    # read as written when the loop over the relationships is in the method itself (the source analysis follows generators and
+    # helper closures on its own); in canonical form otherwise
+    if not any(isinstance(n, ast.For) and _calls(n, "add_rel") for n in ast.walk(xmlp0.node)):
+        xmlp.node = _expand13(prog, xmlp0, depth=3, local_only=True, skip_names=("add_rel", "new"))
+    loop_node = xmlp.node    # the function body the add_rel loop is found in
+    handed = None            # (parameter of the factory, argument expression in xml) when an element-class factory builds the item
     add_calls = [(n, c) for n in ast.walk(xmlp.node) if isinstance(n, ast.For) for c in _calls(n, "add_rel")]
     ret = [n.value for n in ast.walk(xmlp.node) if isinstance(n, ast.Return) and dotted(n.value) and dotted(n.value).endswith(".xml_file_bytes")]
+    if not add_calls:
+        # `return CT_Relationships.from_rels(<the relationships>).xml_file_bytes`: the loop lives in a factory of the element class
+        for r_ in [n.value for n in ast.walk(xmlp.node) if isinstance(n, ast.Return) and isinstance(n.value, ast.Attribute) and n.value.attr == "xml_file_bytes"
+                   and isinstance(n.value.value, ast.Call)]:
+            rc_ = _rc13(prog, xmlp0, r_.value, {})
+            if rc_ is not None and hasattr(rc_[0], "node") and len(r_.value.args) == 1:
+                g_ = rc_[0]
+                gx_ = _expand13(prog, g_, depth=2, local_only=True, skip_names=("add_rel", "new"))
+                gp_ = [a.arg for a in g_.node.args.args][(1 if rc_[1] else 0):]
+                if gp_ and all(isinstance(x, ast.Return) and dotted(x.value) for x in ast.walk(gx_) if isinstance(x, ast.Return)):
+                    loop_node, handed = gx_, (gp_[0], r_.value.args[0])
+                    add_calls = [(n, c) for n in ast.walk(gx_) if isinstance(n, ast.For) for c in _calls(n, "add_rel")]
+                    ret = [r_]
     if not add_calls or not ret:
         ctx.error("_Relationships.xml", "loop calling add_rel / return of xml_file_bytes not recognised")
     else:
@@ -771,15 +796,27 @@ def run(ctx):
         # where does the relationship object come from?
         src = None
         if fields:
+            def whole_source(it_):
+                """source of the loop's iterable; a factory's parameter is followed to the argument xml hands it"""
+                s_ = source_of(loop_node, it_)
+                if handed is not None and s_["terminal"] == handed[0]:
+                    s2_ = source_of(xmlp.node, handed[1])
+                    s2_["filtered"] = s_["filtered"] + s2_["filtered"]
+                    s2_["lossy"] = s_["lossy"] + s2_["lossy"]
+                    return s2_
+                return s_
+
             if isinstance(loop.target, ast.Name) and loop.target.id == v:
-                src = source_of(xmlp.node, loop.iter)
+                src = whole_source(loop.iter)
                 # generator `self[rId] for ... in <keys>` maps keys to their relationships
                 want = KEYS | VALUES
             else:
                 asg = [n for n in ast.walk(loop) if isinstance(n, ast.Assign) and isinstance(n.targets[0], ast.Name) and n.targets[0].id == v]
+                tnames_ = [loop.target.id] if isinstance(loop.target, ast.Name) else [
+                    e_.id for e_ in loop.target.elts if isinstance(e_, ast.Name)] if isinstance(loop.target, ast.Tuple) else []
                 if len(asg) == 1 and isinstance(asg[0].value, ast.Subscript) and dotted(asg[0].value.value) in ("self", "self._rels") \
-                        and isinstance(loop.target, ast.Name) and dotted(asg[0].value.slice) == loop.target.id:
-                    src = source_of(xmlp.node, loop.iter)
+                        and dotted(asg[0].value.slice) in tnames_:
+                    src = whole_source(loop.iter)
                     want = KEYS
         if not fields:
             ctx.violation("R1.3", "_Relationships.xml", "a relationship is not serialised with its own (rId, reltype, target_ref, is_external): "
